@@ -47,7 +47,7 @@ def from_json(x):
     return x
 
 
-STMT_KINDS = {"expr", "decl", "if", "block", "for", "store", "jump", "empty"}
+STMT_KINDS = {"expr", "decl", "if", "block", "for", "store", "jump", "empty", "return"}
 ATOM_KINDS = {"reg", "newreg", "explicit", "alias", "imm", "id", "num"}
 
 
@@ -91,7 +91,7 @@ class EngineG(EngineBase):
         paren_postfix = config == "A"
         texts = []
         # exhaustive operator-pair slice carried by this run
-        n_pairs = 8
+        n_pairs = 14
         base = (index * n_pairs) % len(self.pairs)
         for k in range(n_pairs):
             e = self.pairs[(base + k) % len(self.pairs)]
@@ -375,9 +375,9 @@ def shrink_ast(s):
             yield ("store", s[1], s[2], y, s[4])
         for y in shrink_expr(s[4]):
             yield ("store", s[1], s[2], s[3], y)
-    elif k == "jump":
+    elif k in ("jump", "return"):
         for y in shrink_expr(s[1]):
-            yield ("jump", y)
+            yield (k, y)
 
 
 A0 = ("atom", ("id", "a"))
